@@ -1004,9 +1004,11 @@ def normalise(F):
             if p in coros and created.get(p, 0) > 0 and INLINED_AWAITS.get(p, 0) >= created.get(p, 0):
                 continue
             out[p] = b
-    # a new function that is also handed over by name (`.filter_map(Self::helper)`) is not reachable through a call: it keeps a body of its own
+    # a new function that is also handed over by name (`.filter_map(Self::helper)`) is not reachable through a call: it keeps a body of its own;
+    # so does a new function that users of the library can call (a new public operation is an entry point in its own right)
     from .families import _fn_items
     work = [q for b in list(out.values()) if b.get('crate') in WS for q in _fn_items(b)]
+    work += [q for q in sorted(newset) if (F.fns.get(q) or {}).get('vis') == 'pub' and (F.fns.get(q) or {}).get('reach')]
     while work:
         q = work.pop()
         if q in newset and q not in out and q in F.bodies:
